@@ -126,7 +126,15 @@ func c19Exec(t *testing.T, scn c19Scenario, ch *mc.Chooser) (rec c19Rec, machine
 		var items []sitem
 		off := aofS0
 		for i, ki := range scn.Keys {
-			raw := redisd.EncodeCommandS("SET", c19Keys[ki], fmt.Sprintf("v%d", i))
+			raw := redisd.EncodeCommandS("SET", c19Keys[0], "unused")
+			if ki < 0 {
+				// a multi-key command whose keys live on different nodes: not routable as one
+				// command; the replay must report it, not drop it (or its batch) silently
+				raw = redisd.EncodeCommandS("DEL", c19Keys[0], c19Keys[2])
+			} else {
+				raw = redisd.EncodeCommandS("SET", c19Keys[ki], fmt.Sprintf("v%d", i))
+			}
+			_ = raw
 			off += int64(len(raw))
 			items = append(items, sitem{raw, off})
 		}
@@ -367,6 +375,9 @@ func oracleC19(scn c19Scenario, rec *c19Rec) mc.Result {
 	// per key: positions of executed values
 	perKeySrc := map[string][]string{}
 	for i, ki := range scn.Keys {
+		if ki < 0 {
+			continue
+		}
 		k := c19Keys[ki]
 		perKeySrc[k] = append(perKeySrc[k], fmt.Sprintf("v%d", i))
 	}
@@ -468,7 +479,7 @@ func runC19(t *testing.T, rep *mc.Reporter) {
 		{Txn: true, Resume: true, Pipeline: false, Count: 2, Bytes: 1 << 20, DbMode: "id"},
 		{Txn: true, Resume: true, Pipeline: true, Count: 2, Bytes: 1 << 20, DbMode: "id"},
 	}
-	streams := [][]int{{0, 0}, {0, 1, 0}, {0, 2, 0}, {0, 0, 0}, {0, 2, 0, 0}}
+	streams := [][]int{{0, 0}, {0, 1, 0}, {0, 2, 0}, {0, 0, 0}, {0, 2, 0, 0}, {0, -1, 0}}
 	topos := [][]string{{"O"}, {"M", "F"}, {"M", "Ka", "F"}, {"M", "Ka"}, {"M"}}
 	bound := 2
 	if tier == "thorough" {
@@ -491,6 +502,9 @@ func runC19(t *testing.T, rep *mc.Reporter) {
 					for i, k := range st {
 						if k == 2 {
 							k = 3
+						}
+						if k < 0 {
+							k = 1
 						}
 						keys[i] = k
 					}
